@@ -578,7 +578,17 @@ class CExec:
         if kind == "ArraySubscriptExpr":
             return self.subscript(e, st, k)
         if kind == "UnaryExprOrTypeTraitExpr":
-            return k(cx.fresh("sizeof", INT), st)
+            # sizeof of a pointer (8 on the LP64 target the extension is built for) and of an array of pointers, whose length
+            # clang records in the operand type; anything else stays an unspecified positive integer
+            import re as _re
+            q = ((e.get("inner") or [{}])[0].get("type") or e.get("argType") or {}).get("qualType", "")
+            m = _re.match(r"^(.*)\[(\d+)\]$", q)
+            if e.get("name") == "sizeof" and m and sort_of_ctype(m.group(1).strip()) in (FN, Obj):
+                return k(z3.IntVal(8 * int(m.group(2))), st)
+            if e.get("name") == "sizeof" and not m and q and sort_of_ctype(q) in (FN, Obj):
+                return k(z3.IntVal(8), st)
+            sz = cx.fresh("sizeof", INT)
+            return k(sz, st.assume(sz >= 1))
         raise Unsupported("C expression %s" % kind)
 
     def cast(self, v, e, ck):
@@ -744,6 +754,13 @@ class CExec:
             raise Unsupported("shift by a symbolic amount")
         if z3.is_expr(a) and z3.is_expr(b) and a.sort() != b.sort():
             raise Unsupported("comparison of %s with %s" % (a.sort(), b.sort()))
+        if op in ("/", "%"):
+            # C division truncates toward zero; only with a positive constant divisor (sizeof quotients)
+            sb = z3.simplify(b)
+            if z3.is_int_value(sb) and sb.as_long() > 0:
+                q = z3.If(a >= 0, a / b, -((-a) / b))
+                return z3.simplify(q) if op == "/" else z3.simplify(a - b * q)
+            raise Unsupported("integer %s by a non-constant or non-positive divisor" % op)
         t = {"+": lambda: a + b, "-": lambda: a - b, "*": lambda: a * b, "==": lambda: a == b, "!=": lambda: a != b,
              "<": lambda: a < b, "<=": lambda: a <= b, ">": lambda: a > b, ">=": lambda: a >= b}.get(op)
         if t is None:
